@@ -165,10 +165,14 @@ func (m *Dense) UnmarshalBinary(data []byte) error {
 	if rows < 0 || cols < 0 {
 		return errBadSize
 	}
-	size := rows * cols
-	if size == 0 {
+	if rows == 0 || cols == 0 {
 		return ErrZeroLength
 	}
+	if rows > maxLen/cols {
+		// rows*cols would overflow.
+		return errTooBig
+	}
+	size := rows * cols
 	if int(size) < 0 || size > maxLen {
 		return errTooBig
 	}
@@ -221,10 +225,14 @@ func (m *Dense) UnmarshalBinaryFrom(r io.Reader) (int, error) {
 	if rows < 0 || cols < 0 {
 		return n, errBadSize
 	}
-	size := rows * cols
-	if size == 0 {
+	if rows == 0 || cols == 0 {
 		return n, ErrZeroLength
 	}
+	if rows > maxLen/cols {
+		// rows*cols would overflow.
+		return n, errTooBig
+	}
+	size := rows * cols
 	if int(size) < 0 || size > maxLen {
 		return n, errTooBig
 	}
